@@ -109,10 +109,16 @@ NormalFails(r) ==
     Cl(RetOK(st, r.op, r.ret), "ReturnValue")
     \cup Cl(SameProj(OpResult(st, r.op), r.post), "StateAfter")
     \cup Cl(NoChangeExpected(st, r.op) => r.post.rawsha = r.pre.rawsha, "UnchangedWhenNothingToDo")
+\* a collection is several resources, each added in a transaction of its own: a
+\* fault leaves some of its packages completely added and the others not at all
+CollPrefixes(st, rs) ==
+  {AddSeq(st, [k \in 1..n |-> rs[p[k]]]) : <<p, n>> \in Perms(rs) \X (0..Len(rs))}
 FaultFails(r) ==
   LET st == ObsSt(r.pre) IN
     Cl(IsExc(r.ret), "FaultPropagates")
-    \cup (IF r.op[1] = "remove"
+    \cup (IF r.op[1] = "addcoll"
+          THEN Cl(\E s \in CollPrefixes(st, r.op[2]) : SameProj(s, r.post), "CollectionAtomicPerPackage")
+          ELSE IF r.op[1] = "remove"
           THEN Cl(\E s \in RemovePrefixes(st, r.op[2]) : SameProj(s, r.post), "RemoveAtomicPerLexicon")
           ELSE IF r.fault.kind = "close"
           THEN Cl(r.post.rawsha = r.pre.rawsha \/ SameProj(OpResult(st, r.op), r.post), "AtomicOutcome")
